@@ -579,3 +579,104 @@ pub fn sink_flood(rep: &mut Report, opts: &Opts) {
         }
     }
 }
+
+// ------------------------------------------------------------------ bulk same-time actions (C01, C07)
+
+struct BulkRx {
+    log: Arc<Mutex<Vec<(u64, u64)>>>,
+}
+impl BulkRx {
+    fn on(&mut self, x: u64, cx: &mut nexosim::model::Context<Self>) {
+        self.log.lock().unwrap().push((x, crate::bench::to_ns(cx.time())));
+    }
+    /// Schedules `n` events on itself, all for `now + 1 s` (model origin).
+    fn arm(&mut self, a: (u64, u64), cx: &mut nexosim::model::Context<Self>) {
+        for i in 0..a.0 {
+            cx.schedule_event(std::time::Duration::from_secs(1), BulkRx::on, a.1 + i).unwrap();
+        }
+    }
+}
+impl Model for BulkRx {}
+
+/// Thousands of actions with one deadline and one origin (the global
+/// scheduler, or one model's context), a small or default mailbox so that the
+/// chained sends have to wait, and one action due later. Oracle: the step runs
+/// every action due at the deadline, in scheduling order, at exactly that
+/// time; the later action runs at its own time in the next step.
+pub fn bulk_case(prop: &str, seed: u64, threads: usize) -> Result<u64, (String, String)> {
+    let mut rng = Rng::new(seed);
+    rec::reset(&Default::default());
+    let n = *rng.pick(&[200u64, 1023, 1024, 1025, 1500, 3000, 5000]);
+    let n = if cfg!(miri) { 40 } else { n };
+    let log = Arc::new(Mutex::new(Vec::new()));
+    let mb: Mailbox<BulkRx> = Mailbox::with_capacity(*rng.pick(&[1usize, 3, 16, 100]));
+    let addr = mb.address();
+    let mb2: Mailbox<BulkRx> = Mailbox::new();
+    let addr2 = mb2.address();
+    let log2 = Arc::new(Mutex::new(Vec::new()));
+    let (mut simu, sched) = SimInit::with_num_threads(threads)
+        .add_model(BulkRx { log: log.clone() }, mb, "rx")
+        .add_model(BulkRx { log: log2.clone() }, mb2, "other")
+        .init(MonotonicTime::EPOCH)
+        .map_err(|e| (format!("{}/bulk-init-failed", prop), format!("{:?}", e)))?;
+    let model_origin = rng.chance(1, 2);
+    let d = std::time::Duration::from_secs(1);
+    rec::in_call(true);
+    if model_origin {
+        simu.process_event(BulkRx::arm, (n, 0u64), &addr).map_err(|e| (format!("{}/bulk-arm-failed", prop), format!("{:?}", e)))?;
+    } else {
+        for i in 0..n {
+            sched.schedule_event(d, BulkRx::on, i, &addr).unwrap();
+        }
+    }
+    // A second origin with a few same-time events of its own, and a later event.
+    for i in 0..3u64 {
+        sched.schedule_event(d, BulkRx::on, 900_000 + i, &addr2).unwrap();
+    }
+    sched.schedule_event(std::time::Duration::from_secs(2), BulkRx::on, 1_000_000, &addr).unwrap();
+    let r1 = simu.step();
+    let got: Vec<(u64, u64)> = log.lock().unwrap().clone();
+    let r2 = simu.step();
+    rec::in_call(false);
+    let what = format!("{} actions scheduled for t0+1s by {} ({} executor thread(s))", n, if model_origin { "one model's context" } else { "the global scheduler" }, threads);
+    if let Err(e) = r1 {
+        return Err((format!("{}/bulk-step-failed", prop), format!("{}: step() returned {:?}", what, e)));
+    }
+    let exp: Vec<(u64, u64)> = (0..n).map(|i| (i, 1_000_000_000)).collect();
+    if got != exp {
+        let ids: Vec<u64> = got.iter().map(|g| g.0).collect();
+        let in_order = ids.windows(2).all(|w| w[0] < w[1]);
+        let sig = if got.len() as u64 != n { format!("{}/actions-due-not-all-executed-by-step", prop) } else if !in_order { format!("{}/same-time-events-reordered", prop) } else { format!("{}/handler-ran-at-wrong-time", prop) };
+        let first_bad = got.iter().zip(exp.iter()).position(|(a, b)| a != b).unwrap_or(got.len().min(exp.len()));
+        return Err((sig, format!("{}: step() executed {} of them (first difference at position {}: got {:?}, expected {:?}); in scheduling order: {}", what, got.len(), first_bad, got.get(first_bad), exp.get(first_bad), in_order)));
+    }
+    if r2.is_err() || log.lock().unwrap().last() != Some(&(1_000_000, 2_000_000_000)) {
+        return Err((format!("{}/handler-ran-at-wrong-time", prop), format!("{}: the action due at t0+2s was not executed at that time by the next step ({:?}, last handled {:?})", what, r2, log.lock().unwrap().last())));
+    }
+    let other: Vec<u64> = log2.lock().unwrap().iter().map(|e| e.0).collect();
+    if other != vec![900_000, 900_001, 900_002] {
+        return Err((format!("{}/same-time-events-reordered", prop), format!("{}: the three same-time events of the second target were handled as {:?}", what, other)));
+    }
+    drop(simu);
+    Ok(n)
+}
+
+pub fn bulk(rep: &mut Report, opts: &Opts, prop: &'static str) {
+    let cases = if cfg!(miri) { 2 } else { opts.n(64, 1600) };
+    let base = h2(opts.seed, 0xB01C);
+    for case in 0..cases {
+        if !opts.mine(case) {
+            continue;
+        }
+        let cs = h2(base, case);
+        let threads = if cfg!(miri) { 1 + (case % 2) as usize } else { [1usize, 1, 2, 4][(case % 4) as usize] };
+        rep.evaluations += 1;
+        match bulk_case(prop, cs, threads) {
+            Ok(n) => {
+                rep.count("bulk_same_time_same_origin_actions_checked", n);
+                rep.distinct.insert(h2(cs, 7));
+            }
+            Err((sig, detail)) => rep.violation(sig, format!("[bulk] {}", detail), opts.replay_args("bulk", case)),
+        }
+    }
+}
